@@ -168,6 +168,22 @@ def model_properties(schema: dict, doc: dict, _seen: tuple = ()) -> tuple[dict[s
     return props, req, addl
 
 
+def enforced_required(schema: dict, doc: dict, _seen: tuple = ()) -> set[str]:
+    """Required names ANY decoder of this model is sure to insist on: those listed by the very member that declares the
+    property.  A name that an allOf member merely requires while another member declares it (`allOf: [$ref Parent,
+    {required: [p]}]`) is mandatory by JSON Schema, but whether generated code enforces it is C15's subject: acceptance
+    models treat it as 'may be absent', generated instances always carry it."""
+    s = resolve(schema, doc)
+    out: set[str] = set()
+    for m in s.get("allOf", []):
+        key = json.dumps(m, sort_keys=True)
+        if key in _seen:
+            continue
+        out |= enforced_required(m, doc, _seen + (key,))
+    out |= set(s.get("required") or []) & set(s.get("properties") or {})
+    return out
+
+
 def union_members(s: dict) -> list[dict]:
     ms = list(s.get("anyOf") or []) + list(s.get("oneOf") or [])
     ts = types_of(s)
@@ -209,8 +225,8 @@ def attempt_succeeds(member: dict, J: Any, doc: dict, depth: int = 0) -> bool:
                 J = {}  # from_dict starts with dict(src): dict([]) and dict("") are {} - no exception
             else:
                 return False
-        props, req, addl = model_properties(member, doc)
-        if not req <= set(J):
+        props, _req, addl = model_properties(member, doc)
+        if not enforced_required(member, doc) <= set(J):
             return False
         for name, ps in props.items():
             if name in J and not attempt_succeeds(ps, J[name], doc, depth + 1):
@@ -282,8 +298,8 @@ def fails_robustly(member: dict, J: Any, doc: dict, depth: int = 0) -> bool:
     if k == "model":
         if not isinstance(J, dict):
             return _dict_ctor_fails(J)  # from_dict starts with dict(src)
-        props, req, addl = model_properties(member, doc)
-        if not req <= set(J):
+        props, _req, addl = model_properties(member, doc)
+        if not enforced_required(member, doc) <= set(J):
             return True
         for name, ps in props.items():
             if name in J and J[name] is not None and classify(ps, doc) in ("model", "uuid", "date", "date-time", "enum", "const", "union") \
@@ -622,7 +638,20 @@ def norm(x: Any, models_prefix: str) -> Any:
     return ("unknown", repr(x)[:80])
 
 
+def _no_empty_lists(x: Any) -> Any:
+    """A model's re-encoded form modulo 'key absent' == 'key: []': the generated from_dict turns an ABSENT optional list of
+    constructible items into [] (C02 / C10's subject, not claimed).  The instance generator keeps such keys present in the
+    values it builds for a model, but a value meant for one union member may be taken by another, all-optional one."""
+    if isinstance(x, tuple) and len(x) == 2 and x[0] == "{}":
+        return ("{}", tuple((k, _no_empty_lists(v)) for k, v in x[1] if v != ("[]", ())))
+    if isinstance(x, tuple):
+        return tuple(_no_empty_lists(v) for v in x)
+    return x
+
+
 def norm_matches(actual: Any, expected: list[Any]) -> bool:
+    actual = _no_empty_lists(actual)
+    expected = [_no_empty_lists(e) for e in expected]
     for e in expected:
         if actual == e:
             return True
